@@ -855,9 +855,16 @@ V("C15-whitespace-before-quotes", "C15", ["C15.R6"], [(TOKENIZE, "        if whi
 V("C15-sanitize-skips-python", "C15", ["C15.R7"], [(SANITIZE, "        if token.kind is Token.Kind.PYTHON:\n            token.token = sanitize_python_code(token.token)\n", "")])
 V("C15-sanitize-drops-dot", "C15", ["C15.R7"], [(SANITIZE, "            token.kind = Token.Kind.OPERATOR\n", "            token.kind = Token.Kind.OPERATOR\n            continue\n")])
 V("C15-format-expr-identity", "C15", ["C15.R7"], [(CODE, "    code = ast.parse(expr, mode=\"eval\") if isinstance(expr, str) else expr\n    return ast.unparse(code).replace(\"\\n\", \" \")", "    return expr if isinstance(expr, str) else ast.unparse(expr)")])
-V("C15-aliases-not-restored", "C15", ["C15.R7"], [(SANITIZE, "        expr = expr.replace(alias, f\"`{orig}`\")\n", "        expr = expr.replace(alias, orig)\n")])
+V("C15-aliases-not-restored", "C15", ["C15.R7"], [(SANITIZE, "    while aliases:\n", "    while aliases and False:\n")])
 V("C15-context-exclusive-end", "C15", ["C15.R8"], [(TOKEN, "self.source[self.source_start:self.source_end+1]}⧚{self.source[self.source_end+1:]}\"\n", "self.source[self.source_start:self.source_end]}⧚{self.source[self.source_end:]}\"\n")])
 V("C15-python-token-lookup", "C15", ["C15.R8"], [(TOKEN, '            Token.Kind.PYTHON: "python",', '            Token.Kind.PYTHON: "lookup",')])
 V("C15-eq-closers-as-tuple", "C15", [], [(TOKENIZE, '''quote_context[-1] in "})]":''', '''quote_context[-1] in ("}", ")", "]"):''')], "equivalent: membership collection spelt as a tuple")
 V("C15-eq-update-renamed", "C15", [], [(TOKEN, "        self, char: str, source_index: int, kind: Union[None, str, Kind] = None\n", "        self, ch: str, source_index: int, kind: Union[None, str, Kind] = None\n"),
                                       (TOKEN, "        self.token += char\n", "        self.token += ch\n")], "equivalent: parameter renamed")
+V("C15-revert-alias-restore", "C15", ["C15.R7"], [(SANITIZE, '''        expr = re.sub(
+            rf"(?<!\\w){re.escape(alias)}(?!\\w)",
+            lambda _, orig=orig: f"`{orig}`",
+            expr,
+        )
+''', '''        expr = expr.replace(alias, f"`{orig}`")
+''')], "origin: revert 7f2b252")
